@@ -32,7 +32,7 @@ FLOOR = 1e-13     # absolute floor for thermal terms, relative to the zero-point
 
 @st.composite
 def cases(draw):
-    s = draw(duck_specs())
+    s = draw(duck_specs(long_grids=True))
     ntv = s["ntv"]
     kind = draw(st.sampled_from(["longitudinal", "offdiagonal"]))
     ei = draw(st.lists(st.floats(0.05, 0.9), min_size=ntv, max_size=ntv))
@@ -145,11 +145,16 @@ def classes_of(full):
         c.append("nq>1")
     if lowT_bucket(full):
         c.append("lowT-overflow-class")
+    if len(T) > 64:
+        c.append("long-T-grid(>64)")
     return c
 
 
 def compact(s):
-    return {k: s[k] for k in ("nq", "na", "ntv", "T", "seed", "garbage", "weights", "V", "kind", "ei", "ej")}
+    out = {k: s[k] for k in ("nq", "na", "ntv", "T", "seed", "garbage", "weights", "V", "kind", "ei", "ej")}
+    if len(out["T"]) > 8:
+        out["T"] = {"n": len(s["T"]), "first": s["T"][0], "step": s["T"][1] - s["T"][0]}
+    return out
 
 
 def sub_identity(ctx):
